@@ -62,3 +62,32 @@ Theorem C08_sliding_wait_only_if : forall kind sched v0 lo0 md progs, 0 <= v0 ->
   (forall u, ev_op e = SlTryWait u -> (ev_res e = true <-> u - md <= ev_lower e)).
 Proof. exact sliding_wait_only_if. Qed.
 Print Assumptions C08_sliding_wait_only_if.
+
+(* F14 (finding, not repaired): with the OS-thread agent instance (default_agent of
+   this_thread.cpp) the program [X: try_acquire_for on an empty semaphore] [Y: release(1) before
+   the deadline] reaches a state that is stuck whatever the clock says: one permit available,
+   neither call has returned, Y holds the spinlock inside default_agent::resume(X), X sleeps and
+   will spin on that lock once its deadline has passed.  Replayed on the real code by
+   harness/c08_tasks.cpp mode f14 (bounded, watchdog). *)
+Theorem C08_os_timed_acquire_deadlock_refuted :
+  exists sched, let c := sem_run all_os sched 0 0 0 f14_progs in
+    stuck all_os (fst c) (snd c) /\ slog (fst c) = [] /\ value (fst c) = 1 /\ released (fst c) = 1 /\
+    pc (snd c 0%nat) = TSleep 1 /\ pc (snd c 1%nat) = ResWait 0 true 0 /\ holder (fst c) = Some 1%nat.
+Proof. exact os_timed_acquire_deadlock_refuted. Qed.
+Print Assumptions C08_os_timed_acquire_deadlock_refuted.
+
+(* non-vacuity: the same program on pika tasks (after the F1 fix): released before the deadline,
+   the timed acquire returns true and has consumed the permit *)
+Example C08_task_timed_acquire_released :
+  let c := sem_run (fun _ => Task) [(0%nat, false); (1%nat, false); (0%nat, false); (0%nat, true)] 0 0 0 f14_progs in
+  value (fst c) = 0 /\ acquired (fst c) = 1 /\ map ev_res (slog (fst c)) = [true; true] /\
+  map ev_tid (slog (fst c)) = [0%nat; 1%nat] /\ pc (snd c 0%nat) = Idle /\ todo (snd c 0%nat) = [].
+Proof. exact task_timed_acquire_released_example. Qed.
+
+(* non-vacuity: three OS threads, a blocked acquirer woken by release(2), a try_acquire in between *)
+Example C08_example :
+  let progs := fun t => match t with 0%nat => [Acquire 1; TryAcquire] | 1%nat => [Release 2] | 2%nat => [TryAcquire] | _ => [] end in
+  let c := sem_run all_os [(0%nat,false);(0%nat,false);(1%nat,false);(2%nat,false);(0%nat,false);(0%nat,false)] 0 0 0 progs in
+  value (fst c) = 0 /\ acquired (fst c) = 2 /\ released (fst c) = 2 /\
+  map ev_res (slog (fst c)) = [false; true; true; true] /\ map ev_tid (slog (fst c)) = [0%nat; 0%nat; 2%nat; 1%nat].
+Proof. vm_compute. repeat split; reflexivity. Qed.
